@@ -50,18 +50,64 @@ def A(v):
     return Symbol("arr_" + v.name) if isinstance(v, Arr) else v
 
 
+# The uninterpreted functions above give each ARGUMENT POSITION of the six low-level routines a role (knots, degree, point, span, output).
+# That is a contract between the routine and its callers: it is the contract of the reference tree only as long as the routine keeps the
+# parameter list below (names and order).  `ROUTINE_FORMALS_NOW` is filled by `check_evaluator` with the parameter lists the analysed tree
+# really has; a handler meeting a routine whose list differs, or a call it cannot bind to that list (star arguments, unknown keywords,
+# missing arguments), raises Undecided: the roles of the actuals are then not known and nothing may be concluded from the extraction.
+ROUTINE_FORMALS = {"nu_find_span": ["knots", "degree", "x"], "cu_find_span": ["xmin", "xmax", "dx", "x", "ncells"],
+                   "nu_basis_funs": ["knots", "degree", "x", "span", "values"], "nu_basis_funs_1st_der": ["knots", "degree", "x", "span", "ders"],
+                   "cu_basis_funs": ["span", "offset", "values"], "cu_basis_funs_1st_der": ["span", "offset", "dx", "ders"]}
+ROUTINE_FORMALS_NOW = {}
+
+
+ROUTINE_KINDS = {"nu_find_span": "aif", "cu_find_span": "ffffi", "nu_basis_funs": "aifia", "nu_basis_funs_1st_der": "aifia",
+                 "cu_basis_funs": "ifa", "cu_basis_funs_1st_der": "iffa"}        # a = array, i = integer, f = real (by annotation)
+ROUTINE_KINDS_NOW = {}
+
+
+def same_parameter_roles(name):
+    """does the routine still take its arguments in the reference order?  A renamed parameter keeps its position (and its role); a
+    parameter list of another length, one that carries a reference name at ANOTHER position, or one whose annotated kinds (array / integer /
+    real) do not fit the reference kinds position by position, is another contract."""
+    want = ROUTINE_FORMALS[name]
+    now = ROUTINE_FORMALS_NOW.get(name, want)
+    if len(now) != len(want):
+        return False
+    if any(n_ != w_ and n_ in want for n_, w_ in zip(now, want)):
+        return False
+    kinds = ROUTINE_KINDS_NOW.get(name)
+    if kinds is not None and any(k_ != "?" and k_ != w_ for k_, w_ in zip(kinds, ROUTINE_KINDS[name])):
+        return False
+    return True
+
+
+def _actuals(call, name):
+    """the actual arguments of a call of a low-level routine in the order of its parameter list (positional or keyword)"""
+    want = ROUTINE_FORMALS[name]
+    now = ROUTINE_FORMALS_NOW.get(name, want)
+    if not same_parameter_roles(name):
+        raise Undecided(f"`{name}` has the parameters {now}, not {want}: the roles of its arguments are not the ones the analysis knows")
+    if any(isinstance(a, ast.Starred) for a in call.args) or any(k.arg is None for k in call.keywords):
+        raise Undecided(f"`{src(call)[:60]}` passes star arguments")
+    b = agree.bind_call(call, now)
+    if b is None or set(b) != set(now):
+        raise Undecided(f"`{src(call)[:60]}` does not bind the parameters {now} one to one")
+    return [b[f_] for f_ in now]
+
+
 def h_nu_find_span(ex, call):
-    k, d, x = (ex.ev(a) for a in call.args[:3])
+    k, d, x = (ex.ev(a) for a in _actuals(call, "nu_find_span"))
     return NSPAN(A(k), d, x)
 
 
 def h_cu_find_span(ex, call):
-    a = [ex.ev(x) for x in call.args[:5]]
+    a = [ex.ev(x) for x in _actuals(call, "cu_find_span")]
     return (CSPAN(*a), COFF(*a))
 
 
-def _fill(ex, call, pos, fn):
-    out = ex.ev(call.args[pos])
+def _fill(ex, out_node, fn):
+    out = ex.ev(out_node)
     if not isinstance(out, Arr):
         raise Undecided("basis output is not an array")
     out.cells = {}
@@ -71,19 +117,22 @@ def _fill(ex, call, pos, fn):
 
 def h_nu_basis(der):
     def h(ex, call):
-        k, d, x, s_ = (ex.ev(a) for a in call.args[:4])
-        return _fill(ex, call, 4, lambda ix, k=k, d=d, x=x, s_=s_: NB(A(k), d, x, s_, ix[0], Integer(der)))
+        acts = _actuals(call, "nu_basis_funs_1st_der" if der else "nu_basis_funs")
+        k, d, x, s_ = (ex.ev(a) for a in acts[:4])
+        return _fill(ex, acts[4], lambda ix, k=k, d=d, x=x, s_=s_: NB(A(k), d, x, s_, ix[0], Integer(der)))
     return h
 
 
 def h_cu_basis(ex, call):
-    s_, o = (ex.ev(a) for a in call.args[:2])
-    return _fill(ex, call, 2, lambda ix, s_=s_, o=o: CB(s_, o, ix[0]))
+    acts = _actuals(call, "cu_basis_funs")
+    s_, o = (ex.ev(a) for a in acts[:2])
+    return _fill(ex, acts[2], lambda ix, s_=s_, o=o: CB(s_, o, ix[0]))
 
 
 def h_cu_basis_der(ex, call):
-    s_, o, dx = (ex.ev(a) for a in call.args[:3])
-    return _fill(ex, call, 3, lambda ix, s_=s_, o=o, dx=dx: CB1(s_, o, dx, ix[0]))
+    acts = _actuals(call, "cu_basis_funs_1st_der")
+    s_, o, dx = (ex.ev(a) for a in acts[:3])
+    return _fill(ex, acts[3], lambda ix, s_=s_, o=o, dx=dx: CB1(s_, o, dx, ix[0]))
 
 
 HANDLERS = {"nu_find_span": h_nu_find_span, "cu_find_span": h_cu_find_span, "nu_basis_funs": h_nu_basis(0),
@@ -218,10 +267,139 @@ def structured(fn):
     return new
 
 
+# --------------------------------------------------------------------------
+# soundness of the extraction: constructs the symbolic reader (symx.SymExec) does not model faithfully are named BEFORE it runs
+# --------------------------------------------------------------------------
+def _reversed_ranges(fn):
+    """`range(a, b, -1)` reads as `range(b + 1, a + 1)` and `range(a, b, 1)` as `range(a, b)`: the reader sees a loop as an unordered set of
+    iterations (point-wise stores, additive accumulations; everything else it declines), so the visiting order is immaterial to it"""
+    hit = False
+    new = clone(fn)
+    for n in ast.walk(new):
+        if isinstance(n, ast.For) and isinstance(n.iter, ast.Call) and src(n.iter.func) == "range" and len(n.iter.args) == 3 and not n.iter.keywords:
+            a, b, s_ = n.iter.args
+            if isinstance(s_, ast.Constant) and s_.value == 1:
+                n.iter.args = [a, b]
+                hit = True
+            elif src(s_) == "-1":
+                one = ast.Constant(value=1)
+                n.iter.args = [ast.BinOp(left=b, op=ast.Add(), right=one), ast.BinOp(left=a, op=ast.Add(), right=one)]
+                hit = True
+    if not hit:
+        return fn
+    ast.fix_missing_locations(new)
+    return new
+
+
+def engine_blind_spot(fn):
+    """first construct of a function that the symbolic reader would read wrongly (it would not stop at it): -> text, or None.
+      * `range` with a step (the reader takes the first two arguments only);
+      * for/else, while/else (the else part is skipped);
+      * a negative literal index (read as a cell of its own, not as a position counted from the end);
+      * a scalar that is plainly re-assigned inside a loop AND read there before it is written (carried from one iteration to the next
+        without being an accumulator): the reader turns every loop-carried scalar into a sum;
+      * a call of one of the six low-level routines whose result is used in a way the handlers do not give (handled by the handlers)."""
+    for n in ast.walk(fn):
+        if isinstance(n, (ast.For, ast.While)) and n.orelse:
+            return f"loop with an else part at line {n.lineno}"
+        if isinstance(n, ast.For) and isinstance(n.iter, ast.Call) and src(n.iter.func) in ("range", "prange") and (len(n.iter.args) > 2 or n.iter.keywords):
+            return f"`{src(n.iter)[:40]}`: a range with a step"
+        if isinstance(n, ast.Subscript):
+            items = n.slice.elts if isinstance(n.slice, ast.Tuple) else [n.slice]
+            for it in items:
+                parts = [it.lower, it.upper] if isinstance(it, ast.Slice) else [it]
+                for p_ in parts:
+                    if isinstance(p_, ast.UnaryOp) and isinstance(p_.op, ast.USub) and isinstance(p_.operand, ast.Constant):
+                        return f"`{src(n)[:40]}`: a position counted from the end of the array"
+        if isinstance(n, ast.For):
+            plain = set()
+            for st in ast.walk(ast.Module(body=n.body, type_ignores=[])):
+                if isinstance(st, ast.Assign) and len(st.targets) == 1 and isinstance(st.targets[0], ast.Name):
+                    from ..core import increment_of
+                    if increment_of(st) is None:
+                        plain.add(st.targets[0].id)
+            plain -= _name_stores(n.target)
+            if plain:
+                exp = upward_exposed(n.body, plain)
+                if exp:
+                    v = sorted(exp)[0]
+                    return (f"`{v}` is re-assigned in the loop at line {n.lineno} and read there before it is written: a scalar carried from "
+                            "one iteration to the next that is not an accumulator")
+    return None
+
+
+def vocabulary_problem(e, allowed, out_fn=None):
+    """An extracted value may be compared with the specification only when it is written in the specification's own vocabulary: sums and
+    products of coefficient reads and of values of the (uninterpreted) basis / span routines at the evaluation points.  Anything else in it
+    (reads of the knots, scratch arrays, integer parts, conditionals, remainders, positions counted from the end ...) is something the
+    comparison does not interpret: -> text naming it, or None"""
+    e = sp.sympify(e)
+    for a in sp.preorder_traversal(e):
+        if isinstance(a, (sp.Add, sp.Mul, sp.Pow, sp.Sum, sp.Symbol, sp.Number, sp.Tuple)) or a.is_Number:
+            continue
+        if isinstance(a, sp.Basic) and a.is_Function or isinstance(a, sp.core.function.AppliedUndef):
+            head = str(a.func)
+            if out_fn is not None and head == out_fn:
+                continue
+            if head not in allowed:
+                return f"`{str(a)[:60]}` is not a term of the specification (coefficient read, basis value, span)"
+            if head in ("NB", "CB", "CB1"):
+                j = a.args[-2] if head == "NB" else a.args[-1]
+                if j.is_number and (not j.is_Integer or j < 0):
+                    return f"`{str(a)[:60]}`: basis value number {j}"
+            continue
+        if isinstance(a, (sp.Rel, sp.logic.boolalg.BooleanFunction)) or a in (sp.true, sp.false):
+            return f"a condition `{str(a)[:50]}` is part of the value"
+        return f"`{str(a)[:60]}` ({type(a).__name__}) is not a term of the specification"
+    return None
+
+
+def unrolled_equal(got, want, subs):
+    """both sides with the degrees set to small integers (`subs`) and every sum written out: polynomials in the uninterpreted reads, whose
+    equality does not depend on the order or nesting of the loops.  -> True / False / None (a sum that cannot be written out)"""
+    try:
+        a, b = sp.sympify(got).subs(subs), sp.sympify(want).subs(subs)
+        for _k in range(4):
+            if not (a.has(sp.Sum) or b.has(sp.Sum)):
+                break
+            a, b = a.doit(), b.doit()
+        if a.has(sp.Sum) or b.has(sp.Sum):
+            return None
+        return sp.expand(a - b) == 0
+    except Exception:
+        return None
+
+
+def load_routine_formals(chk, mod=None):
+    """the parameter lists the low-level routines really have (the module of the evaluator first, then the reference modules)"""
+    ROUTINE_FORMALS_NOW.clear()
+    ROUTINE_KINDS_NOW.clear()
+    for r_ in ROUTINE_FORMALS:
+        for m_ in ([mod] if mod is not None else []) + [chk.mod(U.NU), chk.mod(U.CU)]:
+            if m_.has(r_):
+                ROUTINE_FORMALS_NOW[r_] = [a.arg for a in m_.func(r_).args.args]
+                kinds = ""
+                for a in m_.func(r_).args.args:
+                    t = src(a.annotation) if a.annotation is not None else ""
+                    kinds += "a" if "[" in t else "i" if "int" in t else "f" if "float" in t else "?"
+                ROUTINE_KINDS_NOW[r_] = kinds
+                break
+
+
 def check_evaluator(chk, rel, name, rule="E4-evaluator"):
     mod = chk.mod(rel)
-    fn = structured(mod.func(name))
+    fn = structured(_reversed_ranges(mod.func(name)))
     chk.functions.add(f"{rel}:{name}")
+    load_routine_formals(chk, mod)
+    blind = engine_blind_spot(fn)
+    helpers = {q: structured(_reversed_ranges(f)) for q, f in mod.functions().items() if q not in HANDLERS and q != name and "." not in q}
+    if blind is None:
+        called = {c.func.id for c in ast.walk(fn) if isinstance(c, ast.Call) and isinstance(c.func, ast.Name)}
+        for q in sorted(called & set(helpers)):
+            blind = engine_blind_spot(helpers[q])
+            if blind:
+                blind = f"{q}: {blind}"
+                break
     fam = "cu" if "cu_" in name else "nu"
     two_d = "_2d_" in name
     kind = name.split("_")[-1]          # scalar | vector | cross
@@ -232,20 +410,43 @@ def check_evaluator(chk, rel, name, rule="E4-evaluator"):
             # BSplines selects the uniform-cubic family only for degree 3
             over.update({"deg1": Integer(3), "deg2": Integer(3)} if two_d else {"degree": Integer(3)})
         args = make_args(fn, overrides=over)
+        label = f"{name}[der={d1}{',' + str(d2) if two_d else ''}]"
+        if blind is not None:
+            # ASSUMPTION of every verdict below: the symbolic reader models each construct of the routine.  It does not model this one
+            # and would not stop at it either: nothing is concluded from the extraction.  One defect is decided without it: a work
+            # array refreshed only under a test of a carried scalar and modified in place (`stale_work_array`, assumptions stated there).
+            stale = None
+            for f_ in [fn] + [helpers[q_] for q_ in sorted(helpers) if any(isinstance(c_, ast.Call) and isinstance(c_.func, ast.Name) and c_.func.id == q_
+                                                                         for c_ in ast.walk(fn))]:
+                stale = stale_work_array(f_, [n_ for n_ in ast.walk(f_) if isinstance(n_, ast.For)], [a_.arg for a_ in f_.args.args])
+                if stale is not None:
+                    break
+            if stale is not None and (d1, d2) == combos[0]:
+                # reported once for the routine (which combination of derivative orders reaches the statement is not worked out)
+                chk.ob(rule, stale[0], f"{name}[work array]", False, stale[1], file=rel, func=name)
+                chk.ob(rule, fn, label, None, f"outside the extractable fragment: {blind} (the symbolic reader does not model it)", file=rel, func=name)
+            else:
+                chk.ob(rule, fn, label, None, f"outside the extractable fragment: {blind} (the symbolic reader does not model it)", file=rel, func=name)
+            continue
         ex = SymExec(fn, args, calls=dict(HANDLERS))
         # an evaluator that hands over to another routine of its module (merged entry points, a per-point helper) is read through it
-        ex.module_funcs = {q: structured(f) for q, f in mod.functions().items() if q not in HANDLERS and q != name and "." not in q}
-        label = f"{name}[der={d1}{',' + str(d2) if two_d else ''}]"
+        ex.module_funcs = helpers
         try:
             ex.run()
         except Undecided as e:
             chk.ob(rule, fn, label, None, f"outside the extractable fragment: {e}", file=rel, func=name)
             continue
+        except (IndexError, KeyError, AttributeError, TypeError, ValueError) as e:
+            chk.ob(rule, fn, label, None, f"outside the extractable fragment: {type(e).__name__}: {e}", file=rel, func=name)
+            continue
         i, j, k, l = (Symbol(n, integer=True) for n in "ijkl")
         kref = None
         if fam == "cu":
+            # the index convention is a matter between the span search and the evaluators of ONE module: the module of the evaluator when it
+            # has a search of its own (the numba_/pythran_ copies analysed through this function), the reference module otherwise
             try:
-                kref = uniform_span_analysis(chk.mod(U.CU).func("cu_find_span"))["K"]
+                smod_ = mod if mod.has("cu_find_span") else chk.mod(U.CU)
+                kref = uniform_span_analysis(smod_.func("cu_find_span"))["K"]
             except AnalysisError:
                 kref = None
         shifted = None
@@ -279,12 +480,16 @@ def check_evaluator(chk, rel, name, rule="E4-evaluator"):
         try:
             if fam == "nu":
                 got, want = expected(None)
+                if got is None:
+                    raise Undecided("the routine returns nothing")
                 ok = sum_equal(got, want)
             else:
                 # the window of the uniform family starts at (index returned by the span search) - K: K is the convention of cu_find_span
                 # (cell + K); an evaluator that reads the window of another convention disagrees with the search
                 first_k = 3 if kref is None else kref
                 got, want = expected(first_k)
+                if got is None:
+                    raise Undecided("the routine returns nothing")
                 ok = sum_equal(got, want)
                 if not ok:
                     for K2 in [k_ for k_ in (3, 0, 2, 1, 4) if k_ != first_k]:
@@ -292,13 +497,23 @@ def check_evaluator(chk, rel, name, rule="E4-evaluator"):
                         if sum_equal(g2, w2_):
                             shifted = K2
                             break
-        except (Undecided, KeyError, AttributeError) as e:
+        except (Undecided, KeyError, AttributeError, TypeError) as e:
             chk.ob(rule, fn, label, None, f"comparison not decidable: {type(e).__name__}: {e} (parameter or output renamed?)", file=rel, func=name)
             continue
+        # ---- every VIOLATED verdict below ASSUMES, beyond a faithful extraction:
+        #  (a) the j-th entry the uniform basis routines fill is the cardinal piece of the function `cell + j` (value) / its x-derivative: a
+        #      contract between cu_basis_funs(_1st_der) and the evaluators (order of the table, which side divides by dx).  Established by
+        #      `cu_basis_contract` from the polynomials of the routines themselves; otherwise UNDECIDED.
+        #  (b) the extracted value is written in the vocabulary of the specification (`vocabulary_problem`); otherwise UNDECIDED.
+        #  (c) the two sides differ as polynomials in the uninterpreted reads once the degrees are set to small integers and all sums are
+        #      written out (`unrolled_equal`): a difference that is only one of loop order / nesting of the sums is not a difference.
+        cu_ok = True if fam == "nu" else cu_basis_contract(chk, mod)
         if shifted is not None:
-            if kref is None:
+            if kref is None or cu_ok is not True:
                 chk.ob(rule, fn, label, None, f"the evaluator reads the four coefficients from (index returned by the span search) - {shifted} "
-                       "on, but the convention of cu_find_span (cell + K) was not established: cannot compare the two", file=rel, func=name)
+                       "on, but " + ("the convention of cu_find_span (cell + K) was not established" if kref is None else
+                                     "cu_basis_funs / cu_basis_funs_1st_der do not fill the cardinal pieces in the order cell .. cell+3") +
+                       ": cannot compare the two", file=rel, func=name)
             else:
                 chk.ob(rule, fn, label, False,
                        f"cu_find_span returns cell + {kref} (cell = int((x-xmin)/dx), the four non-vanishing functions are cell .. cell+3) but this "
@@ -306,24 +521,143 @@ def check_evaluator(chk, rel, name, rule="E4-evaluator"):
                        f"cell{kref - shifted + 3:+d}: search and evaluator disagree on the index convention, the value is a combination of the "
                        "wrong coefficients", file=rel, func=name, facts={"code": str(got)[:400], "spec": str(want)[:400]})
             continue
-        extra = ""
-        if not ok and kind != "scalar":
-            # the output cell as it was before the call (uninterpreted read of the output array)
+        extra, why_not = "", None
+        if not ok:
             out_name = "y" if not two_d else "z"
-            try:
+            allowed = {"NB", "CB", "CB1", "NSPAN", "CSPAN", "COFF", "toint", "coeffs"} | \
+                {p_ for p_ in ("x", "y", "X", "Y") if isinstance(args.get(p_), Arr) and p_ != out_name}
+            if fam == "cu":
+                allowed |= {p_ for p_ in ("knots", "kts1", "kts2") if isinstance(args.get(p_), Arr)}
+            if two_d:
+                subs = {args["deg1"]: 3, args["deg2"]: 2} if fam == "nu" else {}
+            else:
+                subs = {args["degree"]: 3} if fam == "nu" else {}
+            subs = {k_: v_ for k_, v_ in subs.items() if isinstance(k_, sp.Symbol)}
+            before = None
+            if kind != "scalar" and isinstance(args.get(out_name), Arr):
+                # the output cell as it was before the call (uninterpreted read of the output array)
                 before = args[out_name].fn(*([i] if (not two_d or kind == "vector") else [i, j]))
-                if sum_equal(sp.sympify(got) - before, want):
+            if cu_ok is not True:
+                why_not = ("cu_basis_funs / cu_basis_funs_1st_der were not established to fill the cardinal pieces (resp. their x-derivatives) in "
+                           "the order cell .. cell+3: what the evaluator must do with their output is not known")
+            elif before is not None and sp.sympify(got).has(before):
+                try:
+                    plus = sum_equal(sp.sympify(got) - before, want)
+                except Exception:
+                    plus = False
+                site = user_buffer_site(chk, name, out_name) if plus else None
+                if plus and site:
+                    # ASSUMPTION checked: an entry point hands the caller's own array to this routine without clearing it (`site`)
                     extra = (f": the routine accumulates onto `{before}` without resetting it first - the result is the previous content of "
-                             "the output array plus the spline value (wrong for every output array that is not zero-filled, e.g. a reused "
-                             "work array)")
-            except Exception:
-                extra = ""
+                             f"the output array plus the spline value (wrong for every output array that is not zero-filled, e.g. a reused "
+                             f"work array; {site})")
+                elif plus:
+                    why_not = (f"the routine accumulates onto `{before}` without resetting it first, and no entry point was found that hands it "
+                               "an array which is not cleared: whether every caller clears the output is not followed")
+                else:
+                    why_not = f"the value depends on the previous content `{before}` of the output array in a way that is not interpreted"
+            else:
+                why_not = vocabulary_problem(got, allowed)
+                if why_not is None:
+                    same = unrolled_equal(got, want, subs)
+                    if same is None:
+                        why_not = "the sums of the extracted value cannot be written out for fixed degrees: the difference is not confirmed"
+                    elif same:
+                        why_not = (f"the symbolic forms differ but agree once the degrees are fixed ({ {str(k_): v_ for k_, v_ in subs.items()} or 'cubic'}) "
+                                   "and the sums written out (loop order / nesting): equality for every degree is not established")
+        if not ok and why_not is not None:
+            chk.ob(rule, fn, label, None, f"comparison not decidable: {why_not}; extracted {str(got)[:200]}", file=rel, func=name,
+                   facts={"code": str(got)[:400], "spec": str(want)[:400]})
+            continue
         chk.ob(rule, fn, label, ok,
                "value = sum over the degree+1 (x degree+1) coefficients of the non-vanishing basis functions (window [span-degree, span]; "
                "uniform family: the window that starts at the cell index, in the index convention of cu_find_span) of coefficient x basis "
                "function, with the " + ("derivative" if (d1 or d2) else "value") + " routine and the knots/degree/point/span of the "
                "same dimension" if ok else (extra[2:] + "; " if extra else "") + f"extracted contraction {str(got)[:260]} differs from {str(want)[:260]}",
                file=rel, func=name, facts={"code": str(got)[:400], "spec": str(want)[:400]})
+
+
+def user_buffer_site(chk, kernel, out_formal):
+    """an entry point of splines.py that hands an array of ITS caller to the output parameter of `kernel` without clearing it first:
+    -> text naming it, or None (no such site found: the call sites may go through tables, other modules call the kernels too)"""
+    try:
+        smod = chk.mod(U.SPLINES)
+        kmods = [chk.mod(U.NU), chk.mod(U.CU)]
+    except AnalysisError:
+        return None
+    sig = None
+    for m_ in kmods:
+        if m_.has(kernel):
+            sig = [a.arg for a in m_.func(kernel).args.args]
+    if sig is None or out_formal not in sig:
+        return None
+    for q, f in smod.functions().items():
+        params = {a.arg for a in f.args.args[1:]}
+        for c in ast.walk(f):
+            if not (isinstance(c, ast.Call) and isinstance(c.func, ast.Name) and c.func.id == kernel):
+                continue
+            b = agree.bind_call(c, sig)
+            a = b.get(out_formal) if b else None
+            if not (isinstance(a, ast.Name) and a.id in params):
+                continue
+            touched = [n for n in ast.walk(f) if (isinstance(n, ast.Name) and n.id == a.id and isinstance(n.ctx, ast.Store)) or
+                       (isinstance(n, ast.Subscript) and isinstance(n.ctx, ast.Store) and src(n.value) == a.id) or
+                       (isinstance(n, ast.Call) and isinstance(n.func, ast.Attribute) and src(n.func.value) == a.id)]
+            if not touched:
+                return f"`{q}` passes its caller's array `{a.id}` as it is"
+    return None
+
+
+_CU_CONTRACT = {}
+
+
+def cu_basis_contract(chk, own=None):
+    """True when cu_basis_funs fills the four cardinal cubic pieces in the order cell .. cell+3 as polynomials of the offset and
+    cu_basis_funs_1st_der their derivatives with respect to x (divided by dx): the contract the uniform evaluators are compared against.
+    None when that was not established (another order, another scaling, not extractable)"""
+    try:
+        # the basis routines of the evaluator's own module when it has them (numba_/pythran_ copies), the reference module otherwise
+        mod = own if own is not None and own.has("cu_basis_funs") and own.has("cu_basis_funs_1st_der") else chk.mod(U.CU)
+        key = (id(mod), id(mod.func("cu_basis_funs")), id(mod.func("cu_basis_funs_1st_der")))
+    except AnalysisError:
+        return None
+    if key not in _CU_CONTRACT:
+        vals, ders = _cu_polynomials(mod)
+        o, dx = sp.symbols("offset dx", real=True)
+        want = _cardinal_pieces(o)
+        okc = None
+        if vals is not None and ders is not None:
+            okc = all(sp.expand(vals[k] - want[k]) == 0 for k in range(4)) and \
+                all(sp.expand(ders[k] - sp.diff(want[k], o) / dx) == 0 for k in range(4))
+        _CU_CONTRACT[key] = True if okc else None
+    return _CU_CONTRACT[key]
+
+
+def _cardinal_pieces(o):
+    return [(1 - o) ** 3 / 6, (3 * o ** 3 - 6 * o ** 2 + 4) / 6, (-3 * o ** 3 + 3 * o ** 2 + 3 * o + 1) / 6, o ** 3 / 6]
+
+
+def _cu_polynomials(mod):
+    """(values, derivatives) the two uniform basis routines store, as expressions of `offset` (and `dx`); None where not extractable"""
+    o, dx = sp.symbols("offset dx", real=True)
+    out = []
+    for q in ("cu_basis_funs", "cu_basis_funs_1st_der"):
+        try:
+            fn = mod.func(q)
+            if len(fn.args.args) != len(ROUTINE_FORMALS[q]) or not same_parameter_roles(q) or engine_blind_spot(fn):
+                raise Undecided("parameters")
+            names = [a.arg for a in fn.args.args]          # roles by position: (span, offset, [dx,] output)
+            over = {names[1]: o} if q == "cu_basis_funs" else {names[1]: o, names[2]: dx}
+            arr = names[-1]
+            ex = SymExec(fn, make_args(fn, overrides=over), calls={})
+            ex.run()
+            got = [sp.sympify(ex.env[arr].read([Integer(k)])) for k in range(4)]
+            if any(v.free_symbols - {o, dx} for v in got):
+                raise Undecided("free symbols")
+            out.append(got)
+        except Exception:
+            out.append(None)
+    return out[0], out[1]
 
 
 # --------------------------------------------------------------------------
@@ -403,9 +737,18 @@ def _only_increments(fn_body, start, mod=None, depth=0):
     -> (+1 | -1, chain of names) or None"""
     S, todo = set(start), list(start)
     sign = None
+    whole = ast.Module(body=list(fn_body), type_ignores=[])
     while todo:
         v = todo.pop()
-        for st in ast.walk(ast.Module(body=list(fn_body), type_ignores=[])):
+        # ASSUMPTION of the verdict built on this chain: EVERY definition of the name is one of the forms read below.  A binding by any other
+        # construct (walrus, with ... as, chained or tuple targets, del, a nested function declaring it nonlocal) is a definition not seen.
+        seen_defs = sum(1 for st in ast.walk(whole) if (isinstance(st, ast.Assign) and len(st.targets) == 1 and isinstance(st.targets[0], ast.Name)
+                                                        and st.targets[0].id == v) or
+                        (isinstance(st, ast.AugAssign) and isinstance(st.target, ast.Name) and st.target.id == v))
+        all_defs = sum(1 for n in ast.walk(whole) if isinstance(n, ast.Name) and n.id == v and isinstance(n.ctx, (ast.Store, ast.Del)))
+        if seen_defs != all_defs or any(isinstance(n, (ast.Nonlocal, ast.Global)) for n in ast.walk(whole)):
+            return None
+        for st in ast.walk(whole):
             tgt, val = None, None
             if isinstance(st, ast.Assign) and len(st.targets) == 1 and isinstance(st.targets[0], ast.Name) and st.targets[0].id == v:
                 tgt, val = st.targets[0], st.value
@@ -536,9 +879,51 @@ def pointwise(chk, rel, name):
                 verdict, node = None, st
                 text = (f"`{v}` is carried from one point of `{src(lp.iter)[:40]}` to the next (`{src(st)[:60]}` reads the value the "
                         "previous iteration left): whether the value computed for point i is independent of the points before it is not followed")
+    if verdict is not False:
+        stale = stale_work_array(fn, loops, params)
+        if stale is not None:
+            verdict, node, text = False, stale[0], stale[1]
     chk.ob("E4-pointwise", node, f"{name}: the scalars of one point do not depend on the previous points", verdict,
            "every scalar used for point i (span, offset, accumulators) is computed within the iteration of point i" if verdict else text,
            file=rel, func=name)
+
+
+def stale_work_array(fn, loops, params):
+    """A local work array that the iteration of a point refreshes only under a test of a scalar carried from the previous point, and that
+    the iteration also modifies in place.  ASSUMPTIONS (all checked here): the array is a local of the routine; its only stores outside the
+    guarded refresh are in-place modifications (their value reads the array itself, or they are augmented assignments); the guard reads a
+    name that reaches it from the previous iteration.  Then on the iterations where the refresh is skipped the array holds what the
+    previous point's in-place modifications left, so the value computed depends on the previous point.  -> (node, text) or None"""
+    for lp in loops:
+        cands = _name_stores(ast.Module(body=lp.body, type_ignores=[])) - _name_stores(lp.target)
+        carried = set(upward_exposed(lp.body, cands))
+        if not carried:
+            continue
+        for iff, guards in walk_guarded(lp.body):
+            if not isinstance(iff, ast.If) or not (carried & _loads(iff.test)) or iff.orelse:
+                continue
+            inside = {id(n) for n in ast.walk(iff)}
+            for st in ast.walk(iff):
+                if not (isinstance(st, ast.Assign) and len(st.targets) == 1 and isinstance(st.targets[0], ast.Subscript) and
+                        isinstance(st.targets[0].value, ast.Name)):
+                    continue
+                A_ = st.targets[0].value.id
+                if A_ in params or A_ in _loads(st.value):
+                    continue
+                others = [x for x in ast.walk(ast.Module(body=lp.body, type_ignores=[])) if id(x) not in inside and
+                          isinstance(x, (ast.Assign, ast.AugAssign)) and
+                          any(isinstance(t, ast.Subscript) and isinstance(t.value, ast.Name) and t.value.id == A_
+                              for t in (x.targets if isinstance(x, ast.Assign) else [x.target]))]
+                rebinds = [x for x in ast.walk(ast.Module(body=lp.body, type_ignores=[])) if isinstance(x, ast.Name) and x.id == A_ and
+                           isinstance(x.ctx, ast.Store)]
+                inplace = [x for x in others if isinstance(x, ast.AugAssign) or A_ in _loads(x.value)]
+                if not others or rebinds or len(inplace) != len(others):
+                    continue
+                return iff, (f"the work array `{A_}` is refreshed (`{src(st)[:60]}`) only when `{src(iff.test)[:50]}` holds, a test of "
+                             f"`{sorted(carried & _loads(iff.test))[0]}`, which is carried from the previous point of `{src(lp.iter)[:30]}`; the iteration "
+                             f"also modifies `{A_}` in place (`{src(inplace[0])[:60]}`), so for a point on which the refresh is skipped the block "
+                             "read is what the previous point left, not the coefficients: the result for point i depends on the points before it")
+    return None
 
 
 def sum_equal(a, b):
@@ -591,6 +976,15 @@ def uniform_span_analysis(fs):
     params = [a.arg for a in fs.args.args]
     if len(params) != 5:
         out["why"] = f"span search has the parameters {params}: not (xmin, xmax, dx, x, ncells)"
+        return out
+    if any(p_ != w_ and p_ in ROUTINE_FORMALS["cu_find_span"] for p_, w_ in zip(params, ROUTINE_FORMALS["cu_find_span"])):
+        # the roles (first break point, last break point, cell width, point, number of cells) are known by position: a parameter list that
+        # carries a reference name at another position is another contract
+        out["why"] = f"span search has the parameters {params}: not (xmin, xmax, dx, x, ncells)"
+        return out
+    blind = engine_blind_spot(fs)
+    if blind:
+        out["why"] = f"span search not extractable: {blind}"
         return out
     args = make_args(fs)
     xmin_s, xmax_s, dx_s, xs, nc_s = (args[p_] for p_ in params)
@@ -731,29 +1125,104 @@ def uniform_span_analysis(fs):
     return out
 
 
+def _table_relation(got, want):
+    """how a table of four expressions relates to the expected one: 'same' | ('perm', order) | ('scaled', factor) | 'other'.
+    A permuted or uniformly rescaled table is another CONVENTION between the routine that fills it and the routines that read it (order of
+    the entries, which side applies a factor), not a wrong table: it is decided only together with the readers."""
+    if all(sp.expand(g - w) == 0 for g, w in zip(got, want)):
+        return "same"
+    import itertools
+    for perm in itertools.permutations(range(len(want))):
+        if all(sp.expand(got[k] - want[perm[k]]) == 0 for k in range(len(want))):
+            return ("perm", list(perm))
+    for perm in itertools.permutations(range(len(want))):
+        ratios = []
+        for k in range(len(want)):
+            w = want[perm[k]]
+            if sp.expand(w) == 0:
+                ratios = None
+                break
+            ratios.append(sp.simplify(got[k] / w))
+        if ratios and all(sp.simplify(r - ratios[0]) == 0 for r in ratios) and ratios[0] != 0 and not (ratios[0].free_symbols & {sp.Symbol("offset", real=True)}):
+            return ("scaled", ratios[0])
+    return "other"
+
+
+def span_results_used_as_returned(chk):
+    """ASSUMPTION of the verdicts on cu_find_span: what it returns is what its callers use - no caller clamps, shifts or replaces the index
+    or the offset afterwards (the treatment of the last point may live on either side of the call).  Checked over the evaluators, the
+    collocation matrix and splines.py: every binding of a name that receives a result of cu_find_span is such a call.  -> (bool, text)"""
+    for rel in (U.CU, U.INTERP, U.SPLINES):
+        try:
+            mod = chk.mod(rel)
+        except AnalysisError:
+            continue
+        for q, f in mod.functions().items():
+            if q == "cu_find_span":
+                continue
+            names = set()
+            for st in ast.walk(f):
+                if isinstance(st, ast.Call) and src(st.func).split(".")[-1] == "cu_find_span":
+                    par = parent(st)
+                    if not (isinstance(par, ast.Assign) and par.value is st and len(par.targets) == 1 and isinstance(par.targets[0], ast.Tuple)
+                            and len(par.targets[0].elts) == 2 and all(isinstance(x, ast.Name) for x in par.targets[0].elts)):
+                        return False, f"`{q}` uses the result of cu_find_span in another way than `span, offset = cu_find_span(...)`"
+                    names |= {x.id for x in par.targets[0].elts}
+            for n in ast.walk(f):
+                if isinstance(n, ast.Name) and n.id in names and isinstance(n.ctx, (ast.Store, ast.Del)):
+                    par = parent(n)
+                    par2 = parent(par) if par is not None else None
+                    if isinstance(par, ast.Assign) and isinstance(par.value, ast.Call) and src(par.value.func).split(".")[-1] == "nu_find_span":
+                        continue        # the same name receives the span of the other family on the other arm of a dispatch
+                    if not (isinstance(par, ast.Tuple) and isinstance(par2, ast.Assign) and isinstance(par2.value, ast.Call) and
+                            src(par2.value.func).split(".")[-1] == "cu_find_span"):
+                        return False, f"`{q}` re-binds `{n.id}`, which holds a result of cu_find_span (line {getattr(n, 'lineno', '?')})"
+    return True, ""
+
+
 def cardinal_cubic(chk):
     """cu_basis_funs / cu_basis_funs_1st_der are the cardinal cubic B-spline pieces"""
     mod = chk.mod(U.CU)
     o, dx = sp.symbols("offset dx", real=True)
     fn = mod.func("cu_basis_funs")
-    args = make_args(fn, overrides={"offset": o})
+    load_routine_formals(chk)
     try:
+        blind = engine_blind_spot(fn)
+        if blind:
+            raise Undecided(blind)
+        if len(fn.args.args) != 3 or not same_parameter_roles("cu_basis_funs"):
+            raise Undecided(f"parameters {[a.arg for a in fn.args.args]} are not (span, offset, values)")
+        names = [a.arg for a in fn.args.args]              # roles by position
+        args = make_args(fn, overrides={names[1]: o})
         ex = SymExec(fn, args, calls={})
         ex.run()
-        vals = [sp.sympify(ex.env["values"].read([Integer(k)])) for k in range(4)]
+        vals = [sp.sympify(ex.env[names[2]].read([Integer(k)])) for k in range(4)]
         if any(not v.is_polynomial(o) or v.free_symbols - {o} for v in vals):
             raise Undecided(f"values are not polynomials of the offset: {vals}")
     except (Undecided, KeyError, AttributeError, TypeError) as e:
         chk.ob("F8-cardinal-cubic", fn, "cu_basis_funs", None, f"basis values not extractable: {type(e).__name__}: {e}", file=U.CU, func="cu_basis_funs")
         return
-    want = [(1 - o) ** 3 / 6, (3 * o ** 3 - 6 * o ** 2 + 4) / 6, (-3 * o ** 3 + 3 * o ** 2 + 3 * o + 1) / 6, o ** 3 / 6]
+    want = _cardinal_pieces(o)
+    # ASSUMPTION of a VIOLATED verdict on the pieces: entry k is meant to be the piece of function cell + k, unscaled.  A table that holds
+    # the four pieces in another order, or all of them times one factor, is another contract with the evaluators: UNDECIDED here (the
+    # evaluators are then undecided too, see `cu_basis_contract`).
+    rel_v = _table_relation(vals, want)
     for k in range(4):
         ok = sp.expand(vals[k] - want[k]) == 0
+        if not ok and rel_v != "other":
+            chk.ob("F8-cardinal-cubic", fn, f"values[{k}]", None,
+                   f"values = {[str(sp.expand(v)) for v in vals]}: the four cardinal pieces " +
+                   (f"in the order {rel_v[1]}" if rel_v[0] == "perm" else f"times {rel_v[1]}") +
+                   " - another convention between the basis routine and its readers, which is not compared end to end", file=U.CU, func="cu_basis_funs")
+            continue
         chk.ob("F8-cardinal-cubic", fn, f"values[{k}]", ok, f"piece {k} of the cardinal cubic B-spline on a cell: {sp.expand(want[k])}" if ok else
                f"values[{k}] = {sp.expand(vals[k])}, the cardinal cubic piece is {sp.expand(want[k])}", file=U.CU, func="cu_basis_funs")
     tot = sp.expand(sum(vals))
-    chk.ob("F8-partition-of-unity", fn, "sum(values) == 1", tot == 1, "the four pieces sum to 1 identically" if tot == 1 else
-           f"the pieces sum to {tot}", file=U.CU, func="cu_basis_funs")
+    scaled = isinstance(rel_v, tuple) and rel_v[0] == "scaled"
+    chk.ob("F8-partition-of-unity", fn, "sum(values) == 1", True if tot == 1 else (None if scaled else False),
+           "the four pieces sum to 1 identically" if tot == 1 else
+           f"the pieces sum to {tot}" + (" (every piece carries the same factor: a scaling left to the readers, not compared)" if scaled else ""),
+           file=U.CU, func="cu_basis_funs")
     # non-negativity on [0,1]: Bernstein coefficients of each cubic are >= 0
     from math import comb
     for k in range(4):
@@ -761,26 +1230,45 @@ def cardinal_cubic(chk):
         a = [p.coeff_monomial(o ** m) for m in range(4)]
         bern = [sum(sp.Rational(comb(i_, m), comb(3, m)) * a[m] for m in range(i_ + 1)) for i_ in range(4)]
         ok = all(b >= 0 for b in bern)
-        chk.ob("F8-non-negative", fn, f"values[{k}] >= 0 on [0,1]", ok, f"Bernstein coefficients {bern} are non-negative" if ok else
+        chk.ob("F8-non-negative", fn, f"values[{k}] >= 0 on [0,1]", True if ok else (None if scaled else False),
+               f"Bernstein coefficients {bern} are non-negative" if ok else
                f"Bernstein coefficients {bern} are not all non-negative", file=U.CU, func="cu_basis_funs")
     fd = mod.func("cu_basis_funs_1st_der")
-    a2 = make_args(fd, overrides={"offset": o, "dx": dx})
     try:
+        blind = engine_blind_spot(fd)
+        if blind:
+            raise Undecided(blind)
+        if len(fd.args.args) != 4 or not same_parameter_roles("cu_basis_funs_1st_der"):
+            raise Undecided(f"parameters {[a.arg for a in fd.args.args]} are not (span, offset, dx, ders)")
+        names = [a.arg for a in fd.args.args]
+        a2 = make_args(fd, overrides={names[1]: o, names[2]: dx})
         ex2 = SymExec(fd, a2, calls={})
         ex2.run()
-        ders = [sp.sympify(ex2.env["ders"].read([Integer(k)])) for k in range(4)]
+        ders = [sp.sympify(ex2.env[names[3]].read([Integer(k)])) for k in range(4)]
         if any(v.free_symbols - {o, dx} for v in ders):
             raise Undecided(f"derivatives depend on more than offset and dx: {ders}")
     except (Undecided, KeyError, AttributeError, TypeError) as e:
         chk.ob("F8-derivative", fd, "cu_basis_funs_1st_der", None, f"derivative values not extractable: {type(e).__name__}: {e}", file=U.CU,
                func="cu_basis_funs_1st_der")
         ders = None
-    for k in range(4) if ders is not None else ():
-        ok = sp.expand(ders[k] - sp.diff(vals[k], o) / dx) == 0
-        chk.ob("F8-derivative", fd, f"ders[{k}] == d/dx values[{k}]", ok, "derivative of the value piece with respect to x = xmin + (cell+offset) dx"
-               if ok else f"ders[{k}] = {sp.expand(ders[k])} but d values[{k}]/dx = {sp.expand(sp.diff(vals[k], o) / dx)}", file=U.CU,
-               func="cu_basis_funs_1st_der")
     if ders is not None:
+        # relational: the derivative routine against the value routine AS EXTRACTED (same order, derivative with respect to x = xmin +
+        # (cell + offset) dx).  A table that is the expected one reordered or uniformly rescaled (e.g. d/d offset, the division by dx left
+        # to the evaluators) is another contract with the readers: UNDECIDED.
+        wantd = [sp.diff(vals[k], o) / dx for k in range(4)]
+        rel_d = _table_relation(ders, wantd)
+        for k in range(4):
+            ok = sp.expand(ders[k] - wantd[k]) == 0
+            if not ok and rel_d != "other":
+                chk.ob("F8-derivative", fd, f"ders[{k}] == d/dx values[{k}]", None,
+                       f"ders = {[str(sp.expand(v)) for v in ders]}: the derivatives of the value pieces " +
+                       (f"in the order {rel_d[1]}" if rel_d[0] == "perm" else f"times {rel_d[1]}") +
+                       " - another convention between the derivative routine and its readers (order, which side divides by dx), not compared "
+                       "end to end", file=U.CU, func="cu_basis_funs_1st_der")
+                continue
+            chk.ob("F8-derivative", fd, f"ders[{k}] == d/dx values[{k}]", ok, "derivative of the value piece with respect to x = xmin + (cell+offset) dx"
+                   if ok else f"ders[{k}] = {sp.expand(ders[k])} but d values[{k}]/dx = {sp.expand(wantd[k])}", file=U.CU,
+                   func="cu_basis_funs_1st_der")
         tot = sp.expand(sum(ders))
         chk.ob("F8-derivative", fd, "sum(ders) == 0", tot == 0, "the derivatives sum to 0 identically" if tot == 0 else f"sum is {tot}",
                file=U.CU, func="cu_basis_funs_1st_der")
@@ -788,10 +1276,16 @@ def cardinal_cubic(chk):
     fs = mod.func("cu_find_span")
     res = uniform_span_analysis(fs)
     K = res["K"]
-    chk.ob("F8-uniform-span", fs, "cu_find_span", res["ok"],
+    verdict, why = res["ok"], res["why"]
+    if verdict is False:
+        plain, ptext = span_results_used_as_returned(chk)
+        if not plain:
+            verdict, why = None, (f"{why} - unless a caller repairs it: {ptext}, so the index / offset the basis routines receive is not the one "
+                                  "returned (search and callers are not composed)")
+    chk.ob("F8-uniform-span", fs, "cu_find_span", verdict,
            (f"cell = int((x-xmin)/dx), the index returned is cell+{K} (the 4 splines on that cell are the functions "
             f"[index-{K}, index-{K}+3]); the point whose cell index reaches ncells (x = xmax) is evaluated in the last cell with offset 1 "
-            f"(index = ncells+{K - 1})") if res["ok"] else res["why"], file=U.CU, func="cu_find_span")
+            f"(index = ncells+{K - 1})") if verdict else why, file=U.CU, func="cu_find_span")
 
 
 # --------------------------------------------------------------------------
@@ -1269,7 +1763,14 @@ class PointFlow:
         folds = [n for n in ast.walk(e) if (isinstance(n, ast.BinOp) and isinstance(n.op, (ast.Mod, ast.FloorDiv))) or
                  (isinstance(n, ast.Call) and src(n.func) in FOLDS)]
         if folds:
-            return (False, f"`{text}` folds or clamps the evaluation point (`{src(folds[0])[:50]}`)")
+            # ASSUMPTION of VIOLATED: the operation changes some point of the closed domain.  A remainder / floor division by the period
+            # does (the right end point goes to the left end).  A clamp (min / max / clip) is the identity on the closed domain when its
+            # bounds are the ends of the domain, which is a matter of values: UNDECIDED.
+            mods = [n for n in folds if isinstance(n, ast.BinOp) or src(n.func) in ("np.mod", "np.fmod", "np.remainder", "math.fmod")]
+            if not mods:
+                return (None, f"`{text}` clamps the evaluation point (`{src(folds[0])[:50]}`): the identity on the closed domain only if the "
+                              "bounds are its end points, which is not followed")
+            return (False, f"`{text}` folds the evaluation point (`{src(mods[0])[:50]}`)")
         if isinstance(e, ast.Call) and isinstance(e.func, ast.Attribute) and len(e.args) == 1 and not e.keywords and \
                 self.classify(e.args[0]) == "same":
             # a method of the basis applied to the point: read what it returns
@@ -1722,13 +2223,25 @@ def check_site(chk, q, smod, site, sigs, flow, fn, fm=None):
     pb, sb = _family(gen["name"])
     why = []
     ok = True
-    if not (pa == "cu_" and pb == "nu_" and sa == sb):
-        ok = False
-        why.append(f"the arms call `{fast['name']}` / `{gen['name']}`: not the cu_/nu_ pair of one routine on the (fast, general) arms, so "
-                   "one family of bases is evaluated by a routine that reads its knot array differently")
+    # ASSUMPTIONS of a VIOLATED verdict here: (1) the prefix cu_/nu_ of a routine of the two kernel modules says which knot description it
+    # reads (E4 reads the kernels themselves); (2) the test selects the fast arm exactly for cubic-uniform bases (decided by the rule
+    # E1-dispatch-test; without it nothing says which arm is which).  Under these, a fast arm calling a nu_ routine or a general arm
+    # calling a cu_ routine hands one family's knot array to the other family's reader.  Two DIFFERENT routines of the right families
+    # (e.g. the scalar kernel on one arm, the vector kernel on a one-point array on the other) are not wrong by themselves: UNDECIDED.
+    own_fast = ("self._basis.cubic_uniform",) if q.startswith("Spline1D") else ("self._basis1.cubic_uniform", "self._basis2.cubic_uniform")
+    test_known = src(test).replace("._cubic_uniform_splines", ".cubic_uniform") in own_fast or fam_test is True
+    if pa == "nu_" or pb == "cu_":
+        ok = False if test_known else None
+        why.append(f"the arms call `{fast['name']}` / `{gen['name']}`: the {'fast' if pa == 'nu_' else 'general'} arm calls a routine of the "
+                   "other family, which reads the knot array of this family of bases differently" +
+                   ("" if test_known else " (if the test selects the fast arm for cubic-uniform bases, which was not established)"))
+    elif not (pa == "cu_" and pb == "nu_" and sa == sb):
+        ok = None
+        why.append(f"the arms call `{fast['name']}` / `{gen['name']}`: not the cu_/nu_ pair of one routine; whether the two do the same job "
+                   "is not compared")
     if site.get("targets") and site["targets"][0] != site["targets"][1]:
-        ok = False
-        why.append(f"results go to different targets `{site['targets'][0]}` / `{site['targets'][1]}`")
+        ok = None if ok else ok
+        why.append(f"results go to different targets `{site['targets'][0]}` / `{site['targets'][1]}`: what happens to them afterwards is not followed")
     la = [src(x) for x in fast["args"]], [(k.arg, src(k.value)) for k in fast["keywords"]]
     lb = [src(x) for x in gen["args"]], [(k.arg, src(k.value)) for k in gen["keywords"]]
     fa, fb = sigs.get(fast["name"]), sigs.get(gen["name"])
@@ -1750,9 +2263,15 @@ def check_site(chk, q, smod, site, sigs, flow, fn, fm=None):
             rest = [f_ for f_ in diff if f_ not in kn]
             text = "the two families receive different arguments: " + ", ".join(
                 f"`{f_}` <- `{src(ba.get(f_))}` / `{src(bb.get(f_))}`" for f_ in diff)
-            if rest or any(v is False for v in kn_verdicts):
+            # ASSUMPTION of VIOLATED: a parameter that both kernels declare under the same name has the same role in both, so different
+            # actuals cannot both be right.  Only a knot array proved wrong by the family analysis is reported here; any other textual
+            # difference (a coercion on one arm, a default spelled out) is left to the role rules E2 of each arm: UNDECIDED here.
+            if any(v is False for v in kn_verdicts):
                 ok = False
                 why.append(text)
+            elif rest:
+                ok = None if ok else ok
+                why.append(text + " (whether both are right for their routine is decided arm by arm, rule E2)")
             elif any(v is None for v in kn_verdicts):
                 ok = None if ok else ok
                 why.append(text + " (knot arrays whose content on each kind of space is not followed)")
@@ -1760,24 +2279,29 @@ def check_site(chk, q, smod, site, sigs, flow, fn, fm=None):
         ok = None if ok else ok
         why.append("signature of an evaluator not found")
     elif [x[0] for x in fa] != [x[0] for x in fb] or [x[1] for x in fa] != [x[1] for x in fb]:
-        ok = False
-        why.append(f"signatures of the pair differ: {fa} vs {fb}")
+        # the parameter list of a kernel is a contract with ITS callers only; the two families may legitimately declare different lists
+        ok = None if ok else ok
+        why.append(f"signatures of the pair differ: {fa} vs {fb} (each arm is compared with its own routine by rule E2)")
     chk.ob("E1-dispatch", node, label, ok, "matched cu_/nu_ pair, identical arguments, agreeing signatures" if ok else "; ".join(why),
            file=U.SPLINES, func=q)
     # the test
     own = ("self._basis.cubic_uniform",) if q.startswith("Spline1D") else ("self._basis1.cubic_uniform", "self._basis2.cubic_uniform")
     ts = src(test)
     bad = None
-    if ts not in own:
+    # ASSUMPTION of VIOLATED: the test does not denote "this basis is cubic uniform".  A test that the family analysis resolves (through
+    # properties, aliases, stored flags) to exactly that HOLDS whatever it is called; a literal constant, or an attribute the analysis
+    # resolves to ANOTHER stored fact of the basis (its periodicity), is wrong; an attribute that is merely not resolved is UNDECIDED.
+    own_test = ts in own or ts.replace("._cubic_uniform_splines", ".cubic_uniform") in own
+    if not own_test and fam_test is not True:
         if isinstance(test, ast.Constant):
             bad = f"the family is chosen by the constant `{ts}`: one family is evaluated with the other family's routine"
-        elif isinstance(test, ast.Attribute) and src(test.value) in ("self._basis", "self._basis1", "self._basis2") and \
-                test.attr not in ("cubic_uniform", "_cubic_uniform_splines"):
-            bad = (f"the fast path is chosen by `{ts}`, not by the family of the spline's own basis: a basis that stores "
-                   "(xmin, xmax, dx, ncells) instead of a knot vector can reach the general routine, or the reverse")
-    own_test = ts in own or ts.replace("._cubic_uniform_splines", ".cubic_uniform") in own
-    if not own_test and bad is None and fam_test is False:
-        bad = fam_test_text
+        elif fam_test is False:
+            bad = fam_test_text
+        elif fm is not None and fm.ok and isinstance(test, ast.Attribute) and src(test.value) in fm.bases:
+            alts = fm.alts(test)
+            if len(alts) == 1 and not alts[0][0] and src(alts[0][1]) in [fm.per.get(B_) for B_ in fm.bases]:
+                bad = (f"the fast path is chosen by `{ts}`, the periodicity of the basis, not by its family: a basis that stores "
+                       "(xmin, xmax, dx, ncells) instead of a knot vector can reach the general routine, or the reverse")
     chk.pat("E1-dispatch-test", node, ts, own_test or (bad is None and fam_test is True),
             "the fast path is taken iff the spline's own basis is cubic uniform" if own_test else fam_test_text, bad,
             file=U.SPLINES, func=q, nontrivial=False)
@@ -1788,18 +2312,31 @@ def check_site(chk, q, smod, site, sigs, flow, fn, fm=None):
             chk.ob("E2-argument-role", node, f"{q}: {arm['name']}(...)", None, "signature of the evaluator not found", file=U.SPLINES, func=q)
             continue
         formals = [x[0] for x in sig]
+        defaults = {x[0] for x in sig if x[1] is not None}
         fake = ast.Call(func=ast.Name(id=arm["name"], ctx=ast.Load()), args=arm["args"], keywords=arm["keywords"])
+        if any(isinstance(a_, ast.Starred) for a_ in arm["args"]) or any(k_.arg is None for k_ in arm["keywords"]):
+            chk.ob("E2-argument-role", node, f"{q}: {arm['name']}(...)", None, "the call passes star arguments: which parameter receives "
+                   "which value is not followed", file=U.SPLINES, func=q)
+            continue
         b = agree.bind_call(fake, formals)
         if b is None:
             chk.ob("E2-argument-role", node, f"{q}: {arm['name']}(...)", False, f"the argument list does not fit the signature {formals}: "
                    "the call raises", file=U.SPLINES, func=q)
             continue
+        # ASSUMPTION of every VIOLATED verdict of the role rules: the NAME of a parameter of the kernel says what the kernel does with it
+        # (`knots`/`kts1` is searched, `deg1` is the degree of the first dimension, `x` goes with `kts1`, `der2` with the second dimension,
+        # `coeffs` is contracted).  That is established semantically by rule E4: its specification is written over exactly these names, so
+        # when E4 holds for the kernel the names carry these roles.  When E4 is not established for it, a mismatch is UNDECIDED.
+        named_roles = _e4_holds(chk, arm["name"])
         roles = _roles(q)
         inv = {v: k for k, v in roles.items()}
         wrong, unknown = [], []
         for f_, want in roles.items():
             if f_ not in b:
-                wrong.append(f"parameter `{f_}` receives nothing")
+                if f_ in formals and f_ not in defaults:
+                    wrong.append(f"parameter `{f_}` receives nothing")
+                else:
+                    unknown.append(f"`{f_}` is not bound by the call")
                 continue
             got = src(b[f_])
             # private spellings of the same attribute
@@ -1820,10 +2357,16 @@ def check_site(chk, q, smod, site, sigs, flow, fn, fm=None):
                 wrong.append(f"parameter `{f_}` receives `{got}` instead of `{want}`")
             else:
                 unknown.append(f"`{f_}` <- `{got}`")
-        chk.pat("E2-argument-role", node, f"{q}: knots/degree/coeffs -> {arm['name']}", not wrong and not unknown,
-                "knots, degree and coefficients of this spline, each dimension in its own place",
-                ("; ".join(wrong) + ": the spline is evaluated with another dimension's knots/degree or another array") if wrong else None,
-                file=U.SPLINES, func=q)
+        site.setdefault("coeffs_actuals", {})[arm["name"]] = src(b["coeffs"]) if "coeffs" in b else None
+        if wrong and not named_roles:
+            chk.ob("E2-argument-role", node, f"{q}: knots/degree/coeffs -> {arm['name']}", None,
+                   "; ".join(wrong) + f" - but what `{arm['name']}` does with each of its parameters was not established (rule E4 does not hold "
+                   "for it): not decided", file=U.SPLINES, func=q)
+        else:
+            chk.pat("E2-argument-role", node, f"{q}: knots/degree/coeffs -> {arm['name']}", not wrong and not unknown,
+                    "knots, degree and coefficients of this spline, each dimension in its own place",
+                    ("; ".join(wrong) + ": the spline is evaluated with another dimension's knots/degree or another array") if wrong else None,
+                    file=U.SPLINES, func=q)
         # evaluation points and derivative orders keep their places
         entry = [a.arg for a in fn.args.args[1:]]
         pts = [p for p in entry if p in ("x", "x1", "x2")]
@@ -1834,7 +2377,7 @@ def check_site(chk, q, smod, site, sigs, flow, fn, fm=None):
         for want, f_ in zip(pts, kp):
             a = b.get(f_)
             if a is None:
-                verdict, msg = False, f"point parameter `{f_}` receives nothing"
+                verdict, msg = (False if f_ not in defaults else None), f"point parameter `{f_}` receives nothing"
                 break
             c = flow.classify(a)
             if c == "same":
@@ -1847,6 +2390,8 @@ def check_site(chk, q, smod, site, sigs, flow, fn, fm=None):
             else:
                 verdict, msg = c[0], c[1] + MOVED_WHY
             break
+        if verdict is False and not named_roles:
+            verdict, msg = None, msg + f" - but the roles of the parameters of `{arm['name']}` were not established (rule E4 does not hold for it)"
         chk.ob("E2-evaluation-point", node, f"{q}: points {pts} -> {arm['name']}", verdict, msg, file=U.SPLINES, func=q)
         okd, msgd = True, "derivative orders keep their dimension"
         for want, f_ in zip(ders, kd):
@@ -1860,7 +2405,16 @@ def check_site(chk, q, smod, site, sigs, flow, fn, fm=None):
             else:
                 okd, msgd = None, f"`{f_}` receives `{src(a)[:40]}`"
             break
+        if okd is False and not named_roles:
+            okd, msgd = None, msgd + f" - but the roles of the parameters of `{arm['name']}` were not established (rule E4 does not hold for it)"
         chk.ob("E2-argument-role", node, f"{q}: derivative orders -> {arm['name']}", okd, msgd, file=U.SPLINES, func=q, nontrivial=False)
+
+
+def _e4_holds(chk, kernel):
+    """rule E4 was run for this kernel and holds for every combination of derivative orders"""
+    from ..core import HOLDS
+    obs = [o for o in chk.obs if o.rule == "E4-evaluator" and o.func == kernel]
+    return bool(obs) and all(o.status == HOLDS for o in obs)
 
 
 def _module_tables(mod):
@@ -2025,6 +2579,10 @@ def _collocation_arms_flow(cm, arm_f, arm_g):
     formals = [a.arg for a in cm.args.args]
     if len(formals) < 3:
         return None
+    # the positions of the arguments of the four low-level routines have the roles read below only for their reference parameter lists
+    for r_ in ("cu_find_span", "cu_basis_funs", "nu_find_span", "nu_basis_funs"):
+        if not same_parameter_roles(r_):
+            return None
     knots_f = "knots" if "knots" in formals else None
     degree_f = "degree" if "degree" in formals else None
     if knots_f is None or degree_f is None:
@@ -2105,8 +2663,10 @@ def _collocation_arms_flow(cm, arm_f, arm_g):
 
 
 def dispatch_and_wrap(chk):
+    KERNEL_COEFFS.clear()
     smod = chk.mod(U.SPLINES)
     cu, nu = chk.mod(U.CU), chk.mod(U.NU)
+    load_routine_formals(chk)
     sigs = {}
     for m in (cu, nu):
         for q, f in m.functions().items():
@@ -2124,8 +2684,18 @@ def dispatch_and_wrap(chk):
         pts = [a.arg for a in fn.args.args if a.arg in ("x", "x1", "x2")]
         flow = PointFlow(pts, smod)
         moved = None
-        for st, _g in walk_guarded(body):
+        for st, g_ in walk_guarded(body):
             hit = flow.assign(st)
+            if hit is not None and hit[0] is False:
+                # ASSUMPTION of VIOLATED: the replacement is applied to points of the closed domain.  Under a test that reads the point
+                # (`if x > xmax: x = fold(x)`) it may concern points outside the domain only: UNDECIDED.
+                tested = [t for t, _pol, _n in g_ if (flow.same | set(flow.derived) | set(pts)) & _loads(t)]
+                if tested:
+                    hit = (None, hit[1] + f", under the test `{src(tested[-1])[:50]}` of the point itself: which points it concerns is not followed")
+                    if isinstance(st, ast.Assign):
+                        for t_ in st.targets:
+                            if isinstance(t_, ast.Name) and t_.id in flow.derived:
+                                flow.derived[t_.id] = hit
             if hit is not None and moved is None:
                 moved = (st, hit)
         chk.ob("E2-evaluation-point", moved[0] if moved else fn, f"{q}: evaluation points {pts} are not replaced",
@@ -2136,13 +2706,26 @@ def dispatch_and_wrap(chk):
         sites, loose = find_sites(body)
         for s_ in sites:
             check_site(chk, q, smod, s_, sigs, flow, fn, fms[cls_name])
+            for kname, act in s_.get("coeffs_actuals", {}).items():
+                KERNEL_COEFFS.setdefault(kname, set()).add(act)
             if cls_name == "Spline2D":
                 sites2d.append(s_)
         for node, why in loose:
-            unconditional = "without any test" in why or "the only evaluator" in why
-            chk.ob("E1-dispatch", node, f"{q}: {src(node)[:50]}", False if unconditional else None,
+            # ASSUMPTIONS of VIOLATED ("a kernel of one family is called whatever the family of the basis"): (1) no test at all guards the
+            # call (a call selected by a test whose other arm holds no kernel may be completed by other means there: UNDECIDED);
+            # (2) the basis still keeps (xmin, xmax, dx, ncells) as the knots of a cubic-uniform space and a knot sequence otherwise
+            # (read off the constructor of BSplines by the family model); (3) the name prefix of the kernel says which of the two it reads
+            # (rule E4 holds for it).
+            unconditional = "without any test" in why
+            fm_ = fms[cls_name]
+            kinds_ok = fm_.ok and fm_.stored_kind(True) == "compact" and fm_.stored_kind(False) == "full"
+            kname = node.func.id if isinstance(node, ast.Call) and isinstance(node.func, ast.Name) else None
+            sure = unconditional and kinds_ok and kname is not None and _e4_holds(chk, kname)
+            chk.ob("E1-dispatch", node, f"{q}: {src(node)[:50]}", False if sure else None,
                    why + (": a cubic-uniform basis stores (xmin, xmax, dx, ncells) in place of its knot vector, so the routine of the other "
-                          "family reads that array wrongly" if unconditional else ""), file=U.SPLINES, func=q)
+                          "family reads that array wrongly" if sure else
+                          (" (what the bases store as their knots / what this kernel reads was not established)" if unconditional else "")),
+                   file=U.SPLINES, func=q)
         if not sites and not loose:
             chk.ob("E1-dispatch", fn, f"{q}: hand-over to a cu_/nu_ evaluator", None,
                    "no call of a spline evaluator found in this entry point (own methods written back: " + str(sp_.inlined) + "; not followed: " +
@@ -2177,8 +2760,23 @@ def dispatch_and_wrap(chk):
         bad = ("the constructor accepts two bases of different families (nothing requires them to agree), and the evaluation does not treat "
                "each dimension according to its own basis: " + first)
     elif not ok and not fam:
-        bad = ("nothing in the constructor compares the families of the two bases: 2-D splines may mix a cubic-uniform and a general "
-               "basis although the evaluation looks at one basis only, and the other dimension is then evaluated by the wrong routine")
+        # ASSUMPTION of VIOLATED: the whole constructor was read.  The requirement may sit in a helper, a base class or a validation
+        # method: when the constructor calls anything that receives the bases or `self` (other than array allocation), or the class has
+        # base classes, the absence of a comparison in its own text proves nothing: UNDECIDED.
+        try:
+            spi = Specialiser(smod, "Spline2D")
+            flat_init = [st for st, _g in walk_guarded(spi.run("__init__"))]
+        except AnalysisError:
+            spi, flat_init = None, []
+        mentions = any(isinstance(n, ast.Attribute) and n.attr in ("cubic_uniform", "_cubic_uniform_splines") for st in flat_init for n in ast.walk(st))
+        outside = [c for st in flat_init for c in own_exprs(st) if isinstance(c, ast.Call) and
+                   not src(c.func).startswith(("np.", "numpy.")) and src(c.func) not in ("isinstance", "len", "tuple", "list", "int", "float") and
+                   any(isinstance(a_, ast.Name) and a_.id in ("self", "basis1", "basis2") or src(a_) in ("self._basis1", "self._basis2")
+                       for a_ in list(c.args) + [k_.value for k_ in c.keywords] + ([c.func.value] if isinstance(c.func, ast.Attribute) else []))]
+        bases_ = smod.cls("Spline2D").bases
+        if spi is not None and not mentions and not outside and not spi.opaque and not bases_:
+            bad = ("nothing in the constructor compares the families of the two bases: 2-D splines may mix a cubic-uniform and a general "
+                   "basis although the evaluation looks at one basis only, and the other dimension is then evaluated by the wrong routine")
     chk.pat("E1-dispatch-test", init2, "assert basis1.cubic_uniform == basis2.cubic_uniform", ok,
             "a 2-D spline dispatches on one basis only, so both bases must be of the same family" if mixed_ok is None else
             "bases of different families are accepted and every hand-over gives each dimension the knot array its routine reads", bad,
@@ -2187,8 +2785,18 @@ def dispatch_and_wrap(chk):
     imod = chk.mod(U.INTERP)
     cm = imod.func("SplineInterpolator1D.collocation_matrix")
     from ..core import contains as _contains
-    fam_formal = cm.args.args[-1].arg if cm.args.args else "cubic_uniform_splines"
-    ifs = [x for x in ast.walk(cm) if isinstance(x, ast.If) and src(_polarity(x.test)[0]) in ("cubic_uniform_splines", fam_formal)]
+    # which parameter says "cubic uniform": ASSUMPTION of the verdicts below.  Known by its name, or by what the constructor passes to it
+    # (`<basis>.cubic_uniform`); never by its position alone.
+    cm_formals = [a.arg for a in cm.args.args]
+    fam_formal = next((f_ for f_ in cm_formals if "uniform" in f_), None)
+    if fam_formal is None:
+        for c in ast.walk(imod.func("SplineInterpolator1D.__init__")) if imod.has("SplineInterpolator1D.__init__") else ():
+            if isinstance(c, ast.Call) and isinstance(c.func, ast.Attribute) and c.func.attr == "collocation_matrix":
+                bb = agree.bind_call(c, [f_ for f_ in cm_formals if f_ != "self"])
+                for f_, a_ in (bb or {}).items():
+                    if isinstance(a_, ast.Attribute) and a_.attr in ("cubic_uniform", "_cubic_uniform_splines"):
+                        fam_formal = f_
+    ifs = [x for x in ast.walk(cm) if fam_formal is not None and isinstance(x, ast.If) and src(_polarity(x.test)[0]) == fam_formal]
     ok, bad = None, None
     if len(ifs) == 1:
         t, sw = _polarity(ifs[0].test)
@@ -2202,8 +2810,24 @@ def dispatch_and_wrap(chk):
             _contains(arm_f, "xmin, xmax, dx, ncells = knots") or _contains(cm, "xmin, xmax, dx, f_ncells = knots\nncells = int(f_ncells)")
         arm_nu = _contains(arm_g, "span = nu_find_span(knots, degree, x)\nnu_basis_funs(knots, degree, x, span, basis)")
         if mixed:
-            ok, bad = False, (f"`{src(mixed[0])[:60]}` is a routine of the other family on this arm of the dispatch: the knot array of a "
-                              "cubic-uniform basis is (xmin, xmax, dx, ncells), the matrix rows are not the basis values")
+            # ASSUMPTION of VIOLATED: the routine of the other family reads the knot description this arm is selected for (the parameter
+            # `knots` itself or values taken from it).  Given a knot array built otherwise (e.g. an explicit uniform sequence) it may be
+            # an equivalent way of evaluating the same functions: UNDECIDED.
+            from_knots = {"knots"}
+            for st_ in ast.walk(cm):
+                if isinstance(st_, ast.Assign) and any(isinstance(n_, ast.Name) and n_.id in from_knots for n_ in ast.walk(st_.value)):
+                    from_knots |= _name_stores(st_.targets[0]) if len(st_.targets) == 1 else set()
+            m0 = mixed[0]
+            try:
+                acts = _actuals(m0, m0.func.id) if m0.func.id in ROUTINE_FORMALS else []
+            except Undecided:
+                acts = []
+            knot_args = acts[:1] if m0.func.id.startswith("nu_") else (acts[:3] + acts[4:5] if m0.func.id == "cu_find_span" else [])
+            reads_knots = any(isinstance(n_, ast.Name) and n_.id in from_knots for a_ in knot_args for n_ in ast.walk(a_))
+            ok, bad = (False if reads_knots else None), (
+                f"`{src(mixed[0])[:60]}` is a routine of the other family on this arm of the dispatch: the knot array of a "
+                "cubic-uniform basis is (xmin, xmax, dx, ncells), the matrix rows are not the basis values" +
+                ("" if reads_knots else " - if it is given that array, which is not what its arguments show: not decided"))
         elif arm_cu and arm_nu and unpack:
             ok = True
         elif _collocation_arms_flow(cm, arm_f, arm_g) is not None:
@@ -2241,6 +2865,53 @@ def _int_attr(e, table):
         a = _int_attr(e.operand, table)
         return None if a is None else -a
     return None
+
+
+def wrap_done_by_reader(smod):
+    """Does a spline class itself copy coefficients onto coefficients (a wrap applied by the READER side: a coefficient setter, a lazy
+    synchronisation before evaluation)?  Then a producer that leaves the wrapped entries alone is not wrong by itself.  -> text or None"""
+    for cls_ in ("Spline1D", "Spline2D"):
+        try:
+            ms = smod.methods(cls_)
+        except AnalysisError:
+            continue
+        for mname, m in ms.items():
+            for st in ast.walk(m):
+                tgts = st.targets if isinstance(st, ast.Assign) else [st.target] if isinstance(st, ast.AugAssign) else []
+                for t in tgts:
+                    if isinstance(t, ast.Subscript) and src(t.value) in ("self._coeffs", "self.coeffs") and \
+                            any(isinstance(n, ast.Attribute) and src(n) in ("self._coeffs", "self.coeffs") for n in ast.walk(st.value)):
+                        return f"`{cls_}.{mname}` copies coefficients onto coefficients itself (`{src(st)[:60]}`)"
+                if isinstance(st, ast.Call) and src(st.func) in ("np.copyto", "np.put", "np.take") and any("_coeffs" in src(a) for a in st.args):
+                    return f"`{cls_}.{mname}` moves coefficients itself (`{src(st)[:60]}`)"
+    return None
+
+
+def readers_take_linear_window(chk, kernels=None):
+    """The evaluation kernels read the coefficients c[span - degree + j], j = 0..degree, WITHOUT folding the index: the reason why the last
+    `degree` coefficients of a periodic spline must repeat the first ones.  Established by rule E4 for the kernels (run on a private
+    check object when this check has not run them)."""
+    kernels = kernels or [f"{fam}_{e}" for fam in ("nu", "cu") for e in EVALUATORS]
+    have = {o.func for o in chk.obs if o.rule == "E4-evaluator"}
+    if not set(kernels) <= have:
+        from ..core import Check
+        key = id(chk.repo)
+        sub = _PRIVATE_E4.get(key)
+        if sub is None:
+            sub = _PRIVATE_E4[key] = Check(chk.pid, chk.tier)
+            sub.repo = chk.repo
+        done = {o.func for o in sub.obs if o.rule == "E4-evaluator"}
+        for kname in kernels:
+            if kname not in have and kname not in done:
+                try:
+                    check_evaluator(sub, U.CU if kname.startswith("cu_") else U.NU, kname)
+                except (AnalysisError, Undecided):
+                    return False
+        return all(_e4_holds(sub if kname not in have else chk, kname) for kname in kernels)
+    return all(_e4_holds(chk, kname) for kname in kernels)
+
+
+_PRIVATE_E4 = {}
 
 
 def periodic_unit_vector(chk, smod):
@@ -2292,7 +2963,9 @@ def periodic_unit_vector(chk, smod):
         st, guards = wraps[0]
         PER = (f"{S}.basis.periodic", "self.periodic", "self._periodic", f"{S}._basis.periodic")
         per = [pol != _polarity(t)[1] for t, pol, _n in guards if src(_polarity(t)[0]) in PER]
-        vague = [t for t, pol, _n in guards if src(_polarity(t)[0]) not in PER and "periodic" in src(t)]
+        # any guard that is not literally the periodicity flag (a comparison of nbasis with ncells, a test of the index ...) may be
+        # equivalent to it or restrict the wrap further: not interpreted, the verdict is then UNDECIDED
+        vague = [t for t, pol, _n in guards if src(_polarity(t)[0]) not in PER]
         tl, th = st.targets[0].slice.lower, st.targets[0].slice.upper
         vl, vh = st.value.slice.lower, st.value.slice.upper
         def ev(e, dflt):
@@ -2311,8 +2984,21 @@ def periodic_unit_vector(chk, smod):
         else:
             bad = (f"`{src(st)}` copies entries [{c}, {d}) onto [{a}, {b}) (n = number of cells, p = degree): the wrapped copy of a periodic "
                    "basis function is the first p coefficients repeated after the n-th, so this spline is not basis function i")
+    if bad is not None:
+        # ASSUMPTIONS of VIOLATED: (1) the wrapped copy is a contract with the READERS of the coefficients - the kernels read the window
+        # c[span-degree .. span] without folding the index (rule E4) and no spline class wraps the coefficients itself; (2) the length of
+        # the coefficient array is ncells + degree (Spline1D's constructor).  Otherwise the producer side alone decides nothing.
+        reader = wrap_done_by_reader(smod)
+        if reader is not None:
+            bad = None
+        elif not readers_take_linear_window(chk, ["nu_eval_spline_1d_scalar", "nu_eval_spline_1d_vector", "cu_eval_spline_1d_scalar",
+                                                   "cu_eval_spline_1d_vector"]):
+            bad = None
     chk.pat("E5-periodic-wrap", wraps[0][0] if wraps else gi, "coeffs[n:n+p] = coeffs[0:p]", ok, "basis function i of a periodic space carries "
             "its wrapped copy (first p coefficients repeated after the n-th)", bad, file=U.SPLINES, func="BSplines.__getitem__")
+
+
+KERNEL_COEFFS = {}       # kernel -> actuals its `coeffs` parameter receives at the hand-over sites of splines.py (filled by dispatch_and_wrap)
 
 
 def no_coeff_mutation(chk):
@@ -2322,7 +3008,15 @@ def no_coeff_mutation(chk):
             if "eval_spline" not in q:
                 continue
             muts = lints.shared_state_mutations(fn, lambda s: s == "coeffs" or s.startswith("coeffs["))
-            chk.ob("G2-no-shared-mutation", fn, f"{q} vs coeffs", not muts,
+            verdict = not muts
+            if muts:
+                # ASSUMPTION of VIOLATED: the array the kernel writes through IS the spline's own coefficient array, i.e. an entry point
+                # hands `self._coeffs` itself (not a copy) to this kernel's `coeffs`.  Read off the hand-over sites found by the dispatch
+                # analysis; when none of them is known for this kernel the verdict is UNDECIDED.
+                acts = KERNEL_COEFFS.get(q, set())
+                if not acts or not all(a_ in ("self._coeffs", "self.coeffs") for a_ in acts):
+                    verdict = None
+            chk.ob("G2-no-shared-mutation", fn, f"{q} vs coeffs", verdict,
                    "the coefficient array is only read (the working block is a copy)" if not muts else
                    "; ".join(d for _, d in muts) + " - the evaluation overwrites the spline's own coefficients: the first call is "
                    "right, later calls on the same spline are wrong", file=rel, func=q)
